@@ -58,7 +58,14 @@ Proof.
 Qed.
 
 Lemma crr_hsel hs : forall n, hsel (crr_blocks hs) n = match hsel hs n with Some h => Some (fst (crr_block h)) | None => None end.
-Proof. induction hs as [|b r IH]; intros n; simpl; [reflexivity|]. destruct n; [reflexivity | apply IH]. Qed.
+Proof. induction hs as [|a b r IH]; intros n; simpl; [reflexivity|]. destruct n; [reflexivity | apply IH]. Qed.
+
+Lemma crr_dispatch hs d : dispatch (crr_blocks hs) d =
+  match dispatch hs d with (Some h, d') => (Some (fst (crr_block h)), d') | (None, d') => (None, d') end.
+Proof.
+  destruct hs as [|a b r]; [reflexivity|]. destruct a; [reflexivity|].
+  unfold dispatch. rewrite crr_hsel. destruct (hsel (HCons false b r) (dnat d)); reflexivity.
+Qed.
 
 Theorem crr_correct_all :
   (forall st s d tr o s' d', run_stmt st s d tr o s' d' -> crr_ok_stmt' st s d tr o s' d') /\
@@ -69,7 +76,7 @@ Proof.
   - intros f v s d. apply from_plain; simpl; [reflexivity | constructor | discriminate].
   - intros s d. apply from_plain; simpl; [reflexivity | constructor | discriminate].
   - intros s d. apply from_plain; simpl; [reflexivity | constructor | discriminate].
-  - intros l s d. apply from_plain; simpl; [reflexivity | constructor | discriminate].
+  - intros l s d. apply from_plain; simpl; [reflexivity | constructor | destruct (fst (atom_res l d)); discriminate].
   - (* if *)
     intros c b1 b2 s d v tc d1 tr o s' d' Ec _ IH.
     unfold crr_ok_stmt', crr_ok_stmt. simpl.
@@ -145,18 +152,18 @@ Proof.
       eapply RTryJ; eassumption.
     + destruct (crr_block body); destruct (crr_block orelse); destruct (crr_block final); simpl; discriminate.
   - (* try U *)
-    intros body hs orelse final s d tr1 s1 d1 tr3 s3 d3 _ IHb Eh _ IHf. apply from_plain; simpl.
+    intros body hs orelse final s d tr1 s1 d1 d1' tr3 s3 d3 _ IHb Eh _ IHf. apply from_plain; simpl.
     + destruct (crr_block body); destruct (crr_block orelse); destruct (crr_block final); reflexivity.
     + destruct IHb as [Rb _]. destruct IHf as [Rf _].
       destruct (crr_block body) as [b1 f1]. destruct (crr_block orelse) as [b2 f2]. destruct (crr_block final) as [b3 f3]. simpl in *.
-      eapply RTryU; [exact Rb | rewrite crr_hsel, Eh; reflexivity | exact Rf].
+      eapply RTryU; [exact Rb | rewrite crr_dispatch, Eh; reflexivity | exact Rf].
     + destruct (crr_block body); destruct (crr_block orelse); destruct (crr_block final); simpl; discriminate.
   - (* try H *)
-    intros body hs orelse final s d tr1 s1 d1 h tr2 oh s2 d2 tr3 s3 d3 _ IHb Eh _ IHh _ IHf. apply from_plain; simpl.
+    intros body hs orelse final s d tr1 s1 d1 d1' h tr2 oh s2 d2 tr3 s3 d3 _ IHb Eh _ IHh _ IHf. apply from_plain; simpl.
     + destruct (crr_block body); destruct (crr_block orelse); destruct (crr_block final); reflexivity.
     + destruct IHb as [Rb _]. destruct IHf as [Rf _]. destruct IHh as [Rh _].
       destruct (crr_block body) as [b1 f1]. destruct (crr_block orelse) as [b2 f2]. destruct (crr_block final) as [b3 f3]. simpl in *.
-      eapply RTryH; [exact Rb | rewrite crr_hsel, Eh; reflexivity | exact Rh | exact Rf].
+      eapply RTryH; [exact Rb | rewrite crr_dispatch, Eh; reflexivity | exact Rh | exact Rf].
     + destruct (crr_block body); destruct (crr_block orelse); destruct (crr_block final); simpl; discriminate.
   - (* raise *) intros l s d. apply from_plain; simpl; [reflexivity | constructor | discriminate].
   - (* nil *) intros s d. split; [constructor | simpl; discriminate].
@@ -186,11 +193,11 @@ Fixpoint rclean_stmt (st : stmt) : bool :=
 with rclean_block (b : block) : bool :=
   match b with BNil => true | BCons st r => rclean_stmt st && rclean_block r end
 with rclean_blocks (h : blocks) : bool :=
-  match h with HNil => true | HCons b r => rclean_block b && rclean_blocks r end.
+  match h with HNil => true | HCons _ b r => rclean_block b && rclean_blocks r end.
 
 Lemma rclean_hsel hs : forall n h, rclean_blocks hs = true -> hsel hs n = Some h -> rclean_block h = true.
 Proof.
-  induction hs as [|b r IH]; intros n h P E; simpl in *; [discriminate|].
+  induction hs as [|a b r IH]; intros n h P E; simpl in *; [discriminate|].
   apply andb_true_iff in P; destruct P as [Pb Pr]. destruct n; [injection E as <-; exact Pb | eapply IH; eassumption].
 Qed.
 
@@ -198,16 +205,37 @@ Lemma ret_hsel hs : forall n h, hsel hs n = Some h ->
   hsel (fst (ret_blocks hs)) n = Some (fst (ret_block false false h)) /\
   (snd (ret_block false false h) = true -> snd (ret_blocks hs) = true).
 Proof.
-  induction hs as [|b r IH]; intros n h E; simpl in *; [discriminate|].
+  induction hs as [|a b r IH]; intros n h E; simpl in *; [discriminate|].
   destruct (ret_block false false b) as [b' h1] eqn:E1. destruct (ret_blocks r) as [r' h2] eqn:E2.
   destruct n.
   - injection E as <-. rewrite E1. simpl. split; [reflexivity | intros ->; reflexivity].
   - destruct (IH n h E) as [Hs Hu]. simpl in *. split; [exact Hs | intros U; rewrite (Hu U); apply orb_true_r].
 Qed.
 
+Lemma ret_dispatch hs d h d' : dispatch hs d = (Some h, d') ->
+  dispatch (fst (ret_blocks hs)) d = (Some (fst (ret_block false false h)), d') /\
+  (snd (ret_block false false h) = true -> snd (ret_blocks hs) = true).
+Proof.
+  intros E. destruct hs as [|a b r]; [discriminate|]. destruct a.
+  - simpl in E. injection E as <- <-. simpl.
+    destruct (ret_block false false b) as [b' h1]. destruct (ret_blocks r) as [r' h2]. simpl.
+    split; [reflexivity | intros ->; reflexivity].
+  - assert (E' : hsel (HCons false b r) (dnat d) = Some h /\ d' = dtail d) by (simpl in E |- *; injection E as E1 E2; auto).
+    destruct E' as [E1 ->]. destruct (ret_hsel _ _ _ E1) as [Hs Hu]. split; [|exact Hu].
+    simpl in Hs |- *. destruct (ret_block false false b) as [b' h1]. destruct (ret_blocks r) as [r' h2]. simpl in *.
+    rewrite Hs. reflexivity.
+Qed.
+
+Lemma rclean_dispatch hs d h d' : rclean_blocks hs = true -> dispatch hs d = (Some h, d') -> rclean_block h = true.
+Proof.
+  intros P E. destruct hs as [|a b r]; [discriminate|]. destruct a.
+  - simpl in E, P. injection E as <- _. apply andb_true_iff in P. apply P.
+  - apply (rclean_hsel (HCons false b r) (dnat d)); [exact P|]. simpl in E |- *. injection E as E1 _. exact E1.
+Qed.
+
 Lemma ret_hsel_none hs : forall n, hsel hs n = None -> hsel (fst (ret_blocks hs)) n = None.
 Proof.
-  induction hs as [|b r IH]; intros n E; simpl in *; [reflexivity|].
+  induction hs as [|a b r IH]; intros n E; simpl in *; [reflexivity|].
   destruct (ret_block false false b) as [b' h1] eqn:E1. destruct (ret_blocks r) as [r' h2] eqn:E2.
   destruct n; [discriminate|]. simpl. exact (IH n E).
 Qed.
@@ -263,9 +291,18 @@ Proof.
     pose proof (IH2 J2 false (used || false)) as B. destruct (ret_block false (used || false) r) as [r' h2]. simpl in B; subst h2.
     reflexivity.
   - intros _; reflexivity.
-  - intros b IH1 r IH2 J. simpl in J. apply andb_true_iff in J; destruct J as [J1 J2]. simpl.
+  - intros a b IH1 r IH2 J. simpl in J. apply andb_true_iff in J; destruct J as [J1 J2]. simpl.
     pose proof (IH1 J1 false false) as A. destruct (ret_block false false b) as [b' h1]. simpl in A; subst h1.
     pose proof (IH2 J2) as B. destruct (ret_blocks r) as [r' h2]. simpl in B; subst h2. reflexivity.
+Qed.
+
+Lemma ret_dispatch_none hs d d' : dispatch hs d = (None, d') -> dispatch (fst (ret_blocks hs)) d = (None, d').
+Proof.
+  intros E. destruct hs as [|a b r]; [exact E|]. destruct a; [discriminate|].
+  assert (E' : hsel (HCons false b r) (dnat d) = None /\ d' = dtail d) by (simpl in E |- *; injection E as E1 E2; auto).
+  destruct E' as [E1 ->]. pose proof (ret_hsel_none _ _ E1) as Hs.
+  simpl in Hs |- *. destruct (ret_block false false b) as [b' h1]. destruct (ret_blocks r) as [r' h2]. simpl in *.
+  rewrite Hs. reflexivity.
 Qed.
 
 Definition rpost (o : outcome) (hit : bool) (sl sl' : store) : Prop :=
@@ -303,13 +340,27 @@ Proof.
   eapply RIf; [simpl; rewrite (H eq_refl); reflexivity | exact R].
 Qed.
 
-Lemma run_lowered_return l sl d :
-  run_block (one (lowered_return l)) sl d [l] ONormal (upd sl rflag true) d.
+(* the value is evaluated without raising: the flag stays set *)
+Lemma run_lowered_return l sl d : fst (atom_res l d) = false ->
+  run_block (one (lowered_return l)) sl d [l] ONormal (upd sl rflag true) (snd (atom_res l d)).
 Proof.
-  apply run_one. unfold lowered_return.
+  intros E. apply run_one. unfold lowered_return.
   change [l] with (([] ++ [l]) ++ [] ++ []).
   eapply RTryN; [|constructor|constructor].
-  eapply RConsN; [constructor|]. apply run_one. constructor.
+  eapply RConsN; [constructor|]. apply run_one.
+  pose proof (RAtom l (upd sl rflag true) d) as R. rewrite E in R. exact R.
+Qed.
+
+(* evaluating the value raises: the handler of the wrapper resets the flag and re-raises *)
+Lemma run_lowered_return_raise l sl d : fst (atom_res l d) = true ->
+  run_block (one (lowered_return l)) sl d [l] ORaise (upd (upd sl rflag true) rflag false) (snd (atom_res l d)).
+Proof.
+  intros E. apply run_one. unfold lowered_return.
+  change [l] with (([] ++ [l]) ++ ([] ++ rtrace 0) ++ []).
+  eapply RTryH; [| reflexivity | | constructor].
+  - eapply RConsN; [constructor|]. apply RConsJ; [|discriminate].
+    pose proof (RAtom l (upd sl rflag true) d) as R. rewrite E in R. exact R.
+  - eapply RConsN; [constructor|]. apply RConsJ; [constructor | discriminate].
 Qed.
 
 Definition rloop_claim (st : stmt) (s : store) (used : bool) (d : decisions) (tr : list label) (o : outcome)
@@ -352,8 +403,8 @@ Theorem ret_correct_all :
   (forall b s d tr o s' d', run_block b s d tr o s' d' -> rok_block b s d tr o s' d').
 Proof.
   apply run_mutind.
-  - (* atom *) intros l s d. split; [|intros; exact I]. intros _ used sl A _. exists sl. simpl.
-    split; [apply run_one; constructor|]. split; [exact A | apply rpost_refl; discriminate].
+  - (* atom *) intros l s d. split; [|intros; exact I]. intros _ used sl A _. exists sl. simpl. pose proof (RAtom l sl d) as R.
+    destruct (fst (atom_res l d)); simpl; (split; [apply run_one; exact R|]; split; [exact A | apply rpost_refl; discriminate]).
   - (* set *) intros f v s d. split; [|intros; exact I]. intros Cl used sl A _. simpl in Cl. apply negb_true_iff in Cl. apply Nat.eqb_neq in Cl.
     exists (upd sl f v). simpl. split; [apply run_one; constructor|]. split; [apply ragree_upd_clean, A|].
     split; [discriminate | intros _; apply upd_other; congruence].
@@ -361,9 +412,14 @@ Proof.
     split; [apply run_one; constructor|]. split; [exact A | apply rpost_refl; discriminate].
   - (* continue *) intros s d. split; [|intros; exact I]. intros _ used sl A _. exists sl. simpl.
     split; [apply run_one; constructor|]. split; [exact A | apply rpost_refl; discriminate].
-  - (* return *) intros l s d. split; [|intros; exact I]. intros _ used sl A _. exists (upd sl rflag true). simpl.
-    split; [apply run_lowered_return|]. split; [apply ragree_upd_r, A|].
-    split; [intros _; split; [apply upd_same | reflexivity] | congruence].
+  - (* return *) intros l s d. split; [|intros; exact I]. intros _ used sl A Pre. simpl in Pre |- *.
+    destruct (fst (atom_res l d)) eqn:E; simpl.
+    + (* evaluating the value raises *)
+      exists (upd (upd sl rflag true) rflag false). split; [apply run_lowered_return_raise, E|].
+      split; [apply ragree_upd_r, ragree_upd_r, A|].
+      split; [discriminate|]. intros _. rewrite upd_same. symmetry. apply Pre. right; reflexivity.
+    + exists (upd sl rflag true). split; [apply run_lowered_return, E|]. split; [apply ragree_upd_r, A|].
+      split; [intros _; split; [apply upd_same | reflexivity] | congruence].
   - (* if *)
     intros t b1 b2 s d v tc d1 tr o s' d' Ec _ IH. split; [|intros; exact I]. intros Cl used sl A Pre.
     simpl in Cl. apply andb_true_iff in Cl; destruct Cl as [Cl C2]. apply andb_true_iff in Cl; destruct Cl as [Ct C1].
@@ -528,7 +584,7 @@ Proof.
       * intros E. destruct (P1 E) as [X ->]. split; [rewrite C3; exact X | reflexivity].
       * intros N. rewrite C3. apply P2, N.
   - (* try: body raises, no handler, finally *)
-    intros body hs orelse final s d tr1 s1 d1 tr3 s3 d3 _ IHb Eh _ IHf. split; [|intros; exact I].
+    intros body hs orelse final s d tr1 s1 d1 d1' tr3 s3 d3 _ IHb Eh _ IHf. split; [|intros; exact I].
     intros Cl used sl A Pre. simpl in Cl.
     apply andb_true_iff in Cl; destruct Cl as [Cl Jf]. apply andb_true_iff in Cl; destruct Cl as [Cl Cf].
     apply andb_true_iff in Cl; destruct Cl as [Cl Co]. apply andb_true_iff in Cl; destruct Cl as [Cb Ch].
@@ -539,7 +595,7 @@ Proof.
     pose proof (IHf Cf false false) as IFN.
     pose proof (proj1 (proj2 ret_jfree) final Jf false false) as H3.
     destruct (ret_block false false final) as [final' h3] eqn:E3.
-    pose proof (ret_hsel_none hs _ Eh) as Eh'.
+    pose proof (ret_dispatch_none hs _ _ Eh) as Eh'.
     destruct (ret_blocks hs) as [hs' h4] eqn:E4.
     simpl in *. subst h3.
     destruct IB as [sl1 [R1 [A1 [P1 P2]]]]. { intros [H|[H|H]]; try discriminate. apply Pre; right. rewrite H; reflexivity. }
@@ -549,7 +605,7 @@ Proof.
     + apply run_one. eapply RTryU; [exact R1 | exact Eh' | exact R3].
     + split; [discriminate|]. intros N. rewrite C3. apply P2, N.
   - (* try: body raises, handler runs, finally *)
-    intros body hs orelse final s d tr1 s1 d1 h tr2 oh s2 d2 tr3 s3 d3 _ IHb Eh _ IHh _ IHf. split; [|intros; exact I].
+    intros body hs orelse final s d tr1 s1 d1 d1' h tr2 oh s2 d2 tr3 s3 d3 _ IHb Eh _ IHh _ IHf. split; [|intros; exact I].
     intros Cl used sl A Pre. simpl in Cl.
     apply andb_true_iff in Cl; destruct Cl as [Cl Jf]. apply andb_true_iff in Cl; destruct Cl as [Cl Cf].
     apply andb_true_iff in Cl; destruct Cl as [Cl Co]. apply andb_true_iff in Cl; destruct Cl as [Cb Ch].
@@ -560,12 +616,12 @@ Proof.
     pose proof (IHf Cf false false) as IFN.
     pose proof (proj1 (proj2 ret_jfree) final Jf false false) as H3.
     destruct (ret_block false false final) as [final' h3] eqn:E3.
-    destruct (ret_hsel hs _ _ Eh) as [Eh' Hu].
+    destruct (ret_dispatch hs _ _ _ Eh) as [Eh' Hu].
     destruct (ret_blocks hs) as [hs' h4] eqn:E4.
     simpl in *. subst h3.
     destruct IB as [sl1 [R1 [A1 [P1 P2]]]]. { intros [H|[H|H]]; try discriminate. apply Pre; right. rewrite H; reflexivity. }
     assert (C1 : sl1 rflag = sl rflag) by (apply P2; discriminate).
-    destruct (IHh (rclean_hsel _ _ _ Ch Eh) false false sl1 A1) as [sl2 [R2 [A2 [Q1 Q2]]]].
+    destruct (IHh (rclean_dispatch _ _ _ _ Ch Eh) false false sl1 A1) as [sl2 [R2 [A2 [Q1 Q2]]]].
     { intros [H|[H|H]]; try discriminate. rewrite C1. apply Pre; right. rewrite (Hu H). rewrite ?orb_true_r; reflexivity. }
     destruct (IFN sl2 A2) as [sl3 [R3 [A3 [F1 F2]]]]. { intros [H|[H|H]]; discriminate. }
     assert (C3 : sl3 rflag = sl2 rflag) by (apply F2; discriminate).
